@@ -177,6 +177,9 @@ enum Op {
     Enable(Vec<&'static str>),
     Disable(Vec<&'static str>),
     Deser(Vec<&'static str>),
+    /// deserialize of a buffer that is rejected (a valid buffer cut in half): the call fails and
+    /// the engine, its enabled set included, stays as it was
+    DeserBad,
 }
 
 fn ops() -> Vec<Op> {
@@ -193,6 +196,12 @@ fn ops() -> Vec<Op> {
     for s in subsets_of(&["a", "b"]) {
         v.push(Op::Deser(s));
     }
+    v.push(Op::DeserBad);
+    // the same sets spelled in another order / with repetitions (arguments are slices, not sets)
+    v.push(Op::Enable(vec!["b", "a"]));
+    v.push(Op::Enable(vec!["c", "c"]));
+    v.push(Op::Disable(vec!["b", "a", "b"]));
+    v.push(Op::Use(vec!["c", "a", "c"]));
     v
 }
 
@@ -202,6 +211,7 @@ fn op_name(o: &Op) -> String {
         Op::Enable(s) => format!("enable{:?}", s),
         Op::Disable(s) => format!("disable{:?}", s),
         Op::Deser(s) => format!("deserialize(buffer made under {:?})", s),
+        Op::DeserBad => "deserialize(truncated buffer)".to_string(),
     }
 }
 
@@ -243,6 +253,10 @@ fn run_history(h: &HxCtx, seq: &[usize], l: &mut Local, which: usize) {
             Op::Enable(s) => e.enable_tags(s),
             Op::Disable(s) => e.disable_tags(s),
             Op::Deser(t) => e.deserialize(&h.buffers[t]).expect("valid buffer must load"),
+            Op::DeserBad => {
+                let b = &h.buffers[&Vec::<&'static str>::new()];
+                assert!(e.deserialize(&b[..b.len() / 2]).is_err(), "a buffer cut in half was accepted");
+            }
         });
         match op {
             Op::Use(s) => model = s.iter().map(|x| x.to_string()).collect(),
@@ -252,7 +266,7 @@ fn run_history(h: &HxCtx, seq: &[usize], l: &mut Local, which: usize) {
                     model.remove(*x);
                 }
             }
-            Op::Deser(_) => {} // "loading a serialized engine keeps the caller's enabled set"
+            Op::Deser(_) | Op::DeserBad => {} // "loading a serialized engine keeps the caller's enabled set"
         }
         let case = || json!({"kind":"history","list_id":which,"optimize":h.optimize,"ops":seq});
         if let Err(loc) = r {
@@ -264,7 +278,7 @@ fn run_history(h: &HxCtx, seq: &[usize], l: &mut Local, which: usize) {
             if e.tag_exists(t) != model.contains(t) {
                 let names: Vec<String> = seq[..=step].iter().map(|&i| op_name(&h.ops[i])).collect();
                 l.mismatch(Mismatch {
-                    sig: format!("c07.history.tag_exists.after-{}", match op { Op::Use(_) => "use", Op::Enable(_) => "enable", Op::Disable(_) => "disable", Op::Deser(_) => "deserialize" }),
+                    sig: format!("c07.history.tag_exists.after-{}", match op { Op::Use(_) => "use", Op::Enable(_) => "enable", Op::Disable(_) => "disable", Op::Deser(_) => "deserialize", Op::DeserBad => "failed-deserialize" }),
                     what: format!("after {:?}: tag_exists({}) = {}, model {:?}", names, t, e.tag_exists(t), model),
                     case: case(),
                     size: seq.len() as u64,
@@ -290,7 +304,7 @@ fn run_history(h: &HxCtx, seq: &[usize], l: &mut Local, which: usize) {
     l.hist(&format!("final-tags={}", model.len()));
     if let Some(i) = first_diff(&got, exp) {
         let names: Vec<String> = seq.iter().map(|&i| op_name(&h.ops[i])).collect();
-        let last = seq.last().map(|&i| match h.ops[i] { Op::Use(_) => "use", Op::Enable(_) => "enable", Op::Disable(_) => "disable", Op::Deser(_) => "deserialize" }).unwrap_or("none");
+        let last = seq.last().map(|&i| match h.ops[i] { Op::Use(_) => "use", Op::Enable(_) => "enable", Op::Disable(_) => "disable", Op::Deser(_) => "deserialize", Op::DeserBad => "failed-deserialize" }).unwrap_or("none");
         l.mismatch(Mismatch {
             sig: format!("c07.history.activity[{}].last-op-{}", blame(&h.list, &model, h.optimize, &h.bat), last),
             what: format!("list {:?} optimize={} after {:?} (model tags {:?}) query {:?}: engine {:?}, reference {:?}", h.list, h.optimize, names, model, h.bat[i], got[i], exp[i]),
